@@ -183,18 +183,23 @@ func (s *Script) TxsFor(i int, rctx sdk.Context) []Tx {
 		add(u2, &tftypes.MsgSetDenomMetadata{DenomMetadata: banktypes.Metadata{Base: zz, Display: zz, Name: "zz", Symbol: "ZZ", DenomUnits: []*banktypes.DenomUnit{{Denom: zz}}}, Metadata: world.Meta(u2)})
 		add(u2, &skywaytypes.MsgSetERC20ToTokenDenom{Denom: zz, ChainReferenceId: Ref, Erc20: "0x2222222222222222222222222222222222222222", Metadata: world.Meta(u2)})
 		add(u1, &evmtypes.MsgUploadUserSmartContractRequest{Metadata: world.Meta(u1), Title: "c1", AbiJson: "[]", Bytecode: "0x6080", ConstructorInput: "0x"})
-		add(u1, &palomatypes.MsgAddLightNodeClientLicense{Metadata: world.Meta(u1), ClientAddress: world.NewActor("lightnode").Addr.String(), Amount: sdk.NewInt64Coin(world.BondDenom, 1000), VestingMonths: 12})
+		add(u1, &palomatypes.MsgAddLightNodeClientLicense{Metadata: world.Meta(u1), ClientAddress: world.NewActor("lightnode").Addr.String(), Amount: sdk.NewInt64Coin(world.BondDenom, 1000), VestingMonths: 1})
 	case 8:
 		zz := "factory/" + u2.Addr.String() + "/zz"
 		add(u2, &tftypes.MsgChangeAdmin{Denom: zz, NewAdmin: u1.Addr.String(), Metadata: world.Meta(u2)})
 		add(u1, &evmtypes.MsgDeployUserSmartContractRequest{Metadata: world.Meta(u1), Id: 1, TargetChain: Ref})
-		add(u2, &evmtypes.MsgRemoveSmartContractDeploymentRequest{SmartContractID: 1, ChainReferenceID: Ref, Metadata: world.Meta(u2)})
 		add(u2, &palomatypes.MsgAuthLightNodeClient{Metadata: world.Meta(u2)})
+		// rejected by the ante chain (reserved to governance): last of U2's txs in this block, a failed ante does not advance the sequence
+		add(u2, &evmtypes.MsgRemoveSmartContractDeploymentRequest{SmartContractID: 1, ChainReferenceID: Ref, Metadata: world.Meta(u2)})
 		// a light node sale reported by the bridge (no sale contract configured: observed, no effect)
 		for _, v := range w.Vals {
 			add(v.Actor, &skywaytypes.MsgLightNodeSaleClaim{Metadata: world.Meta(v.Actor), EventNonce: 2, EthBlockHeight: 11, Orchestrator: v.Addr.String(), ChainReferenceId: Ref, SkywayNonce: 2,
 				ClientAddress: world.NewActor("lightnode2").Addr.String(), Amount: sdkmath.NewInt(77), SmartContractAddress: "0x00000000000000000000000000000000000000ee", CompassId: world.CompassID})
 		}
+	case 10:
+		// the licensed light node activates its licence: a vesting account whose schedule is derived from block time
+		ln := world.NewActor("lightnode")
+		add(ln, &palomatypes.MsgRegisterLightNodeClient{Metadata: world.Meta(ln)})
 	case 9:
 		// a backlog: every validator reports two consecutive remote events in one block, so one
 		// end-blocker has to observe two nonces (the tally order matters)
